@@ -71,10 +71,13 @@ FAULTS = [
 FAULT_OK = [True] + [False] * 12
 
 
+_DOC = "%s" % samlp.Response(id="id-r1", version="2.0", issuer=saml.Issuer(text=F.IDP_ID),
+                            signature=sigver.pre_signature_part("id-r1"))
+_NODE = "urn:oasis:names:tc:SAML:2.0:protocol:Response"
+
+
 def _signed_response(n_certs):
-    r = samlp.Response(id="id-r1", version="2.0", issuer=saml.Issuer(text=F.IDP_ID),
-                       signature=sigver.pre_signature_part("id-r1"))
-    return r
+    return samlp.response_from_string(_DOC)
 
 
 def check_signature_site(f1: int, f2: int, f3: int):
@@ -85,7 +88,7 @@ def check_signature_site(f1: int, f2: int, f3: int):
     res = None
     exc = None
     try:
-        res = SEC._check_signature("<x/>", item, "urn:x:Response")
+        res = SEC._check_signature(_DOC, item, _NODE)
     except Exception as e:
         exc = e
     n = len(procmodel.Script.calls)
